@@ -33,7 +33,9 @@ DynType(n) == IF n.c # "U" \/ n.k THEN "nil"
 (* single-point mutations (C02): replacement kinds, and structural edits   *)
 Replacements ==
   { BInt("1"), BBool("true"), BStr("s1"), BNull, BSeq(<<>>), BSeq(<<BStr("s1")>>), BSet(<<>>), BSet(<<BInt("1")>>),
-    Prim("C", 0, "s1"), Cons("C", 0, <<BStr("s1")>>), Prim("A", 10, "s1"), Cons("A", 3, <<BStr("s1")>>) }
+    Prim("C", 0, "s1"), Cons("C", 0, <<BStr("s1")>>), Prim("A", 10, "s1"), Cons("A", 3, <<BStr("s1")>>),
+    \* other context-specific choices (a SASL authentication choice is [3] constructed): empty, with one and with two members
+    Cons("C", 3, <<>>), Cons("C", 3, <<BStr("s1")>>), Cons("C", 3, <<BStr("s1"), BStr("s2")>>), Prim("C", 3, "s1"), Cons("C", 0, <<>>), Prim("C", 1, "s0") }
 
 RemoveAtB(s, i) == SubSeq(s, 1, i - 1) \o SubSeq(s, i + 1, Len(s))
 DupAt(s, i)    == SubSeq(s, 1, i) \o SubSeq(s, i, Len(s))
